@@ -43,9 +43,11 @@ def resolved_options(cfg):
     return Config(copy.deepcopy(cfg)).options
 
 
-def build_case(rng, syntax, opts, single=False):
+def build_case(rng, syntax, opts, single=False, gen=None):
     """An abbreviation of 1-3 elements, every element with its own mentions.
-    Returns (abbr, cfg, expected) with expected = [(tagname, mentions)] in document order."""
+    Returns (abbr, cfg, expected) with expected = [(tagname, mentions)] in document order.
+    gen(rng, jsx) -> (text, mentions) writes the mentions of one element (default: attr_util.rand_mentions)."""
+    gen = gen or au.rand_mentions
     jsx = syntax == 'jsx'
     cfg = {'syntax': syntax, 'options': opts} if syntax != 'html' or rng.random() < 0.5 else {'options': opts}
     if not opts and rng.random() < 0.5:
@@ -55,7 +57,7 @@ def build_case(rng, syntax, opts, single=False):
     parts = []
     for k, nm in enumerate(names):
         # a snippet definition is parsed without the jsx extensions
-        text, ms = au.rand_mentions(rng, jsx and not (shape == 6 and k > 0))
+        text, ms = gen(rng, jsx and not (shape == 6 and k > 0))
         parts.append((nm, text, ms))
     (n1, t1, m1), (n2, t2, m2), (n3, t3, m3) = parts
     if shape == 0:
@@ -103,10 +105,168 @@ def check_case(abbr, cfg, expected):
     return None, plain
 
 
+# ---------------------------------------------------------------- unquoted values that contain brackets
+# Emmet syntax (docs.emmet.io, "Custom attributes"; upstream README "unquoted values may contain brackets, e.g.
+# [ng-click=foo(bar)] / [name=items[]]"): an unquoted value runs up to the first white space, quote, `=` or CLOSING
+# bracket that has no partner OF ITS OWN KIND opened inside the value; `{...}` inside a value runs to its matching `}`
+# whatever is in between.  So round, square and curly brackets are counted apart: a `(` left open inside the value
+# does not keep the `]` of the attribute set, `[..]` pairs nest, `([)]` and `[(]` are values.  Stated here on the
+# written text only (nothing of the implementation's tokenizer/parser is consulted).
+BRACKET_VALUES = True          # the stream of this class (off = not generated)
+BR_PLAIN = 'abcxyzABZ0189-_.:/#+,;%&~^|?>*@!'
+BR_BODY = BR_PLAIN + ' ()[]()[]=  '
+BR_NAMES = ['data-e', 'e2', 'on:x']         # names of brace-holding values: never mentioned with an expression value
+
+
+def brace_body(rng, depth=0):
+    out = []
+    for _ in range(rng.choice([0, 1, 2, 3, 5])):
+        if depth < 2 and rng.random() < 0.15:
+            out.append('{' + brace_body(rng, depth + 1) + '}')
+        else:
+            out.append(rng.choice(BR_BODY))
+    return ''.join(out)
+
+
+def rand_bracket_value(rng, braces=True):
+    """An unquoted value with at least one bracket.  `)` / `]` are written only while a `(` / `[` of the value is open
+    (counted per kind, interleaving allowed); its own `[` are closed before it ends (the set's `]` would otherwise be
+    theirs), a `(` may stay open.  Returns (value, classes) with classes = which shapes occur (for coverage)."""
+    while True:
+        out, rd, sq = [], 0, 0
+        cls = set()
+        n = rng.choice([1, 1, 2, 3, 4, 6, 9])
+        while len(out) < n:
+            k = rng.random()
+            if k < 0.2:
+                out.append('(')
+                rd += 1
+                if sq:
+                    cls.add('round-in-square')
+            elif k < 0.32 and rd:
+                out.append(')')
+                rd -= 1
+            elif k < 0.44:
+                out.append('[')
+                sq += 1
+                if rd:
+                    cls.add('square-in-round')
+            elif k < 0.58 and sq:
+                out.append(']')
+                sq -= 1
+                if rd:
+                    cls.add('square-closed-while-round-open')
+            elif k < 0.65 and braces and out:
+                out.append('{' + brace_body(rng) + '}')
+                cls.add('braces')
+            else:
+                out.append(rng.choice(BR_PLAIN))
+        while sq:
+            if rd and rng.random() < 0.3:
+                out.append(')')
+                rd -= 1
+            else:
+                out.append(']')
+                sq -= 1
+                if rd:
+                    cls.add('square-closed-while-round-open')
+        if rd and rng.random() < 0.45:
+            out.append(')' * rd)
+            rd = 0
+        v = ''.join(out)
+        if not any(c in v for c in '()[]{'):
+            continue
+        if rd:
+            cls.add('round-left-open')
+        else:
+            cls.add('balanced')
+        return v, cls
+
+
+def rand_bracket_mention(rng):
+    implied = rng.random() < 0.1
+    braces = rng.random() < 0.3
+    v, cls = rand_bracket_value(rng, braces)
+    name = rng.choice(BR_NAMES) if '{' in v else rng.choice(au.NAMES[:6] if rng.random() < 0.6 else au.NAMES)
+    m = au.mention(name, v, 'raw', False, implied, text='%s%s=%s' % ('!' if implied else '', name, v))
+    m['brackets'] = sorted(cls)
+    return m
+
+
+def bracket_mentions(rng, jsx=False):
+    """Mentions of one element, at least one of them an unquoted value with brackets, at every place: alone in its
+    set, first / middle / last of a set (white space or the set's `]` right after it), before and after shorthands
+    and further sets.  Returns (text, mentions)."""
+    chunks, mentions = [], []
+    nparts = rng.choice([1, 1, 2, 2, 3, 4])
+    special = rng.randrange(nparts)
+    for p in range(nparts):
+        if p != special and rng.random() < 0.4:
+            v = au.rand_word(rng, au.WORD)
+            if rng.random() < 0.4:
+                mentions.append(au.mention('id', v, 'raw', text='#' + v, form='id'))
+                chunks.append('#' + v)
+            else:
+                mentions.append(au.mention('class', v, 'raw', text='.' + v, form='class'))
+                chunks.append('.' + v)
+            continue
+        m = rng.choice([1, 1, 2, 3])
+        ms = [rand_bracket_mention(rng) if rng.random() < 0.6 else au.rand_set_mention(rng, jsx) for _ in range(m)]
+        if p == special and not any('brackets' in x for x in ms):
+            ms[rng.randrange(m)] = rand_bracket_mention(rng)
+        lead = rng.choice(['', '', '', ' ', '\t'])
+        tail = rng.choice(['', '', '', ' ', ' \t'])
+        sep = [rng.choice([' ', ' ', '  ', '\t']) for _ in ms[1:]] + [tail]
+        chunks.append('[' + lead + ''.join(x['text'] + w for x, w in zip(ms, sep)) + ']')
+        mentions += ms
+    return ''.join(chunks), mentions
+
+
+def bracket_seeds():
+    """The shapes of the class written out once each (value, then what follows the set)."""
+    out = []
+    values = ['(', 'a(', '((', '(a)(', '[(]', '([)]', '[[(]]', '([]', 'f(a[0])', 'items[]', '[]', '()', 'a[(b]c',
+              'a{b]c}d', '[a{ ( }]', '({)}']
+    tails = ['', '[y=1]', '.c', '#i', '{t}', '>p', '+p', '*2', '/', '>p^q']
+    for v in values:
+        for t in tails:
+            nm = 'e2' if '{' in v else 't'
+            m = au.mention(nm, v, 'raw', text='%s=%s' % (nm, v))
+            exp = [('x', [m])]
+            if t == '[y=1]':
+                exp = [('x', [m, au.mention('y', '1', 'raw', text='y=1')])]
+            elif t == '.c':
+                exp = [('x', [m, au.mention('class', 'c', 'raw', text='.c', form='class')])]
+            elif t == '#i':
+                exp = [('x', [m, au.mention('id', 'i', 'raw', text='#i', form='id')])]
+            elif t == '>p':
+                exp = [('x', [m]), ('p', [])]
+            elif t == '+p':
+                exp = [('x', [m]), ('p', [])]
+            elif t == '*2':
+                exp = [('x', [m]), ('x', [m])]
+            elif t == '>p^q':
+                exp = [('x', [m]), ('p', []), ('q', [])]
+            out.append(('x[%s]%s' % (m['text'], t), {}, exp, 'tags'))
+        # inside a set: first, middle, last; inside a group
+        a, b = au.mention('a', '1', 'raw', text='a=1'), au.mention('b', 'w x', 'q2', text='b="w x"')
+        nm = 'e2' if '{' in v else 't'
+        m = au.mention(nm, v, 'raw', text='%s=%s' % (nm, v))
+        out.append(('x[%s a=1 b="w x"]' % m['text'], {}, [('x', [m, a, b])], 'tags'))
+        out.append(('x[a=1 %s b="w x"]' % m['text'], {}, [('x', [a, m, b])], 'tags'))
+        out.append(('x[a=1 b="w x" %s ]' % m['text'], {}, [('x', [a, b, m])], 'tags'))
+        out.append(('(x[%s]>y1[a=1])+div[%s]' % (m['text'], m['text']), {}, [('x', [m]), ('y1', [a]), ('div', [m])], 'tags'))
+    return out
+
+
 def verbatim_case(rng):
     """One element, one quoted/expression/unquoted value over a wide alphabet; compared as a whole string."""
     wide = ''.join(chr(c) for c in range(32, 127) if chr(c) not in '$\\') + '\té中'
-    kind = rng.choice(['q1', 'q2', 'expr', 'raw'])
+    kind = rng.choice(['q1', 'q2', 'expr', 'raw', 'rawbr'])
+    if kind == 'rawbr':
+        v, _ = rand_bracket_value(rng)
+        m = au.mention('t', v, 'raw', text='t=' + v)
+        return 'x[t=%s]' % v, {'options': {'output.attributeQuotes': rng.choice(['single', 'double'])}}, [('x', [m])]
     if kind == 'q1':
         v = au.rand_word(rng, wide.replace("'", ''), 0, 8)
         text = "t='%s'" % v
@@ -302,7 +462,14 @@ def run(ctx):
     ctx.cov['rule'] = ('elements with 0-8 attribute mentions (id/class shorthands, [..] sets with unquoted, quoted, empty, '
                        'valueless, boolean `n.`, implied `!n`, expression values; jsx `.{e}`) in random order with duplicate names, '
                        'syntaxes html/xml/jsx/vue x attribute options; exhaustive ordered pairs/triples of one name over every value '
-                       'kind; a verbatim stream (wide alphabet, whole-string comparison). Oracle: tag heads of the output parsed to '
+                       'kind; a verbatim stream (wide alphabet, whole-string comparison). Unquoted values holding brackets '
+                       '(round / square / curly counted per kind: balanced, nested, interleaved `([)]` `[(]`, a `(` left open before '
+                       'the `]` of the set, `{..}` runs with any text inside) as the only / first / middle / last attribute of a set, '
+                       'before and after shorthands and further sets, followed by `]`, white space, another set, .class, #id, {text}, '
+                       '`>` `+` `^` `*n` `/`, inside groups and user snippets: every shape once (bracket_seeds) + random elements x '
+                       'options + the verbatim stream; the value claimed is the written text up to the first white space / closing '
+                       'bracket without a partner of its own kind in the value (Emmet syntax docs), and what follows the set must be '
+                       'read as written. Oracle: tag heads of the output parsed to '
                        '(name, delimiter, value) lists = independent statement of the merge + output rules applied to the mentions. '
                        'HTML-vocabulary stream (attr_vocab): mentions written on default-snippet names (a, label, input, textarea, '
                        'select, img, form, ...; snippet attributes hard-coded from the Emmet docs) alone, as child / grandchild / '
@@ -335,6 +502,13 @@ def run(ctx):
     for _ in range(n_rand // 5):
         abbr, cfg, exp = verbatim_case(rng)
         cases.append((abbr, cfg, exp, 'verbatim'))
+    # unquoted values holding brackets (balanced, nested, interleaved, a `(` left open) at every place of an element
+    if BRACKET_VALUES:
+        cases += bracket_seeds()
+        for _ in range(700 if ctx.tier == 'quick' else 15000):
+            syntax = rng.choice(['html', 'html', 'xml', 'jsx', 'vue'])
+            abbr, cfg, exp = build_case(rng, syntax, rand_options(rng, syntax), gen=bracket_mentions)
+            cases.append((abbr, cfg, exp, 'tags'))
     # the HTML vocabulary (default snippets, label with a control inside) x values made of text and tabstop tokens
     sweep = av.sweep_cases()
     for k, (abbr, cfg, exp) in enumerate(sweep):
@@ -354,6 +528,10 @@ def run(ctx):
         ctx.cover('C03:mentions:%d' % nm)
         if mode == 'vocab':
             av.cover(ctx, exp)
+        for e in exp:
+            for m in e[1]:
+                for b in m.get('brackets') or ():
+                    ctx.cover('C03:unquoted-brackets:' + b)
         for e in exp:
             ms = e[1]
             names = [m['name'] for m in ms if m['name']]
